@@ -255,6 +255,12 @@ def run_part(ctx, bad, mlr_rows, P):
         if b"@" in form + s + rep or b"\t" in form + s + rep:
             continue
         rows.append((t, ng, ci, form, s, rep))
+        if rng.random() < 0.3:
+            # the same pattern text in the other sensitivity form, next record of the same process
+            form2 = miller_form(rng, pat, not ci)
+            s2 = gen_subject(rng)
+            if b"@" not in form2 + s2 and b"\t" not in form2 + s2:
+                rows.append((t, ng, not ci, form2, s2, rep))
     data = [(b"r%d" % i, s, form.replace(b"\\", b"@"), rep.replace(b"\\", b"@")) for i, (t, ng, ci, form, s, rep) in enumerate(rows)]
     X = BS % "$x"
     Rp = BS % "$r"
